@@ -144,6 +144,7 @@ HarnessOK(c, ln) ==
 
 StName == [none |-> "none", idle |-> "IdleState", connecting |-> "ConnectingState", connected |-> "ConnectedState", closed |-> "BaseState"]
 
+ShortFx(ln) == [i \in 1..Len(ln.fx) |-> ln.fx[i].k]
 OKr(g)      == [gh |-> g, err |-> "", info |-> <<>>, hit |-> 0]
 Hit(g, n)   == [gh |-> g, err |-> "", info |-> <<>>, hit |-> n]
 Bad2(g, clause, info) == [gh |-> g, err |-> clause, info |-> info, hit |-> 0]
@@ -215,7 +216,7 @@ C14_Step(c, c2, g, ln) ==
     LET inb == Inbound(c, ln).acc
         wf  == SelectSeq(inb, LAMBDA x : x.p.t # "malformed")
         allUnhandled == Len(wf) = Len(inb) /\ inb # <<>> /\ \A i \in 1..Len(inb) : ~Handles(inb[i].p.t, inb[i].st, ln) /\ inb[i].p.t \in BrokerTypes
-    IN FirstBad(g, << <<~allUnhandled \/ ln.fx = <<>>, "C14.unexpected_packet_had_effect", <<inb[1].p.t, inb[1].st, ln.profile>> >>,
+    IN FirstBad(g, << <<~allUnhandled \/ ln.fx = <<>>, "C14.unexpected_packet_had_effect", <<IF inb # <<>> THEN <<inb[1].p.t, inb[1].st>> ELSE <<>>, ln.profile>> >>,
                       <<c2.A[s.a].st \notin {"idle", "connecting", "connected"} \/ c.A[s.a].tp \notin {"open"} \/ StName[c2.A[s.a].st] = ln.post.state[s.a],
                         "C14.state_differs", <<"recv", c2.A[s.a].st, ln.post.state[s.a]>> >> >>, IF allUnhandled THEN 1 ELSE 0)
   ELSE IF s.op = "lost" THEN
@@ -229,15 +230,20 @@ ConnArgs(s) == [cid |-> s.cid, ka |-> s.ka, clean |-> s.clean, ver |-> s.ver, wt
                 wqos |-> s.wqos, wretain |-> s.wretain, uname |-> s.uname, pwd |-> s.pwd]
 ConnackTicks(ka) == 1024 * (IF ka = 0 THEN 10 ELSE ka)
 \* ghost: exp = set of <<a, g, reason>> notifications owed, done = those delivered
-C04_0 == [exp |-> {}, done |-> {}]
+\*        ctm = pairs <<timer handle armed by an accepted connect(), its Deferred>>
+C04_0 == [exp |-> {}, done |-> {}, ctm |-> {}]
 C04_Step(c, c2, g, ln) ==
   LET s == ln.stim
       fires == Fx(ln, "fire")
       \* fires of connect Deferreds in this line
       cf == SelectSeq(fires, LAMBDA e : c2.D[e.d].op = "connect" /\ c2.D[e.d].n # ln.n)
       cbs == SelectSeq(Fx(ln, "cb"), LAMBDA e : e.name = "onDisconnection")
+      accepted == s.op = "connect" /\ c.A[s.a].st = "idle" /\ c2.A[s.a].st = "connecting" /\ Fx(ln, "arm") # <<>> /\ Fx(ln, "ret") # <<>>
       g1 == [g EXCEPT !.exp = IF s.op = "lost" /\ c.A[s.a].hDisc = 1 THEN @ \cup {<<s.a, c.A[s.a].g, s.reason>>} ELSE @,
-                      !.done = @ \cup {<<cbs[i].a, cbs[i].g, cbs[i].reason>> : i \in 1..Len(cbs)}]
+                      !.done = @ \cup {<<cbs[i].a, cbs[i].g, cbs[i].reason>> : i \in 1..Len(cbs)},
+                      !.ctm = IF accepted THEN @ \cup {<<Fx(ln, "arm")[1].tm, Fx(ln, "ret")[1].d>>} ELSE @]
+      \* the CONNACK timeout of a handshake that already has its outcome must not act any more
+      staleTimeout == s.op = "fire" /\ \E x \in g.ctm : x[1] = s.tm /\ c.D[x[2]].st # "pending"
       inb == IF s.op = "recv" THEN Inbound(c, ln).acc ELSE <<>>
       connacks == SelectSeq(inb, LAMBDA x : x.p.t = "CONNACK" /\ x.st = "connecting")
       \* every fire of a connect Deferred is justified
@@ -268,6 +274,7 @@ C04_Step(c, c2, g, ln) ==
           <<\A i \in 1..Len(cf) : c.D[cf[i].d].st = "pending", "C04.connect_deferred_fired_twice", <<>> >>,
           <<\A i \in 1..Len(cf) : justified(cf[i]), "C04.connect_outcome_unjustified", <<s.op, IF cf # <<>> THEN cf[1] ELSE <<>> >> >>,
           <<connackOK, "C04.connack_without_outcome", <<>> >>,
+          <<~staleTimeout \/ ln.fx = <<>>, "C04.timeout_acts_after_outcome", <<ShortFx(ln)>> >>,
           <<s.op # "lost" \/ ln.post.state[s.a] = "IdleState", "C04.not_idle_after_loss", <<>> >>,
           <<\A i \in 1..Len(cbs) : s.op = "fire" /\ <<cbs[i].a, cbs[i].g, cbs[i].reason>> \in g.exp \ g.done, "C04.unexpected_notification", <<s.op>> >>,
           <<\A i, j \in 1..Len(cbs) : i # j => <<cbs[i].a, cbs[i].g>> # <<cbs[j].a, cbs[j].g>>, "C04.notified_twice", <<>> >> >>,
@@ -857,10 +864,22 @@ C16_End(c, g) == OKr(g)
 -----------------------------------------------------------------------------
 (* C20  Invalid arguments rejected atomically with ValueError/TypeError; valid accepted *)
 \* ghost: the projected state after the previous line (timers, protocol.state, pending Deferreds)
-C20_0 == [timers |-> <<>>, state |-> <<>>, pending |-> <<>>, has |-> FALSE]
+C20_0 == [timers |-> <<>>, state |-> <<>>, pending |-> <<>>, has |-> FALSE, twin |-> FALSE, shift |-> 0, d0 |-> 0]
+\* what of an effect must be the same in a history with and without a refused call (packet identifiers may differ:
+\* the identifier counter is not protocol state)
+NormFx(fx, shift, d0) ==
+  [i \in 1..Len(fx) |->
+     LET e == fx[i]  dd(d) == IF d > d0 THEN d - shift ELSE d IN
+     CASE e.k = "write"  -> <<"write", e.bytes[1], Len(e.bytes)>>
+       [] e.k = "arm"    -> <<"arm", e.delay>>
+       [] e.k = "cancel" -> <<"cancel", e.tm>>
+       [] e.k = "fire"   -> <<"fire", dd(e.d), e.ok, IF e.ok = 1 THEN e.val.ty ELSE LogExc(e)>>
+       [] e.k = "ret"    -> <<"ret", dd(e.d)>>
+       [] e.k = "cb"     -> <<"cb", e.name>>
+       [] e.k = "close"  -> <<"close", e.how>>
+       [] OTHER          -> <<e.k, LogExc(e)>>]
 C20_Step(c, c2, g, ln) ==
   LET s == ln.stim
-      g2 == [timers |-> ln.post.timers, state |-> ln.post.state, pending |-> ln.post.pending, has |-> TRUE]
       k == IF "a" \in DOMAIN s THEN c.A[s.a] ELSE NoA
       isSet == s.op = "set" /\ s.what \in {"window", "timeout", "bandwith"}
       isApi == s.op \in ApiOps
@@ -881,11 +900,24 @@ C20_Step(c, c2, g, ln) ==
                    /\ (g.has => (ln.post.timers = g.timers /\ ln.post.state = g.state /\ ln.post.pending = g.pending))
                    /\ \A i \in 1..Len(ln.fx) : ln.fx[i].k \in {"raise", "ret", "fire"}
                    /\ \A i \in 1..Len(ln.fx) : ln.fx[i].k = "fire" => ln.fx[i].d > Len(c.D)
+      \* twin history: the same stimuli without the extra call at line p0 + 1
+      hasRef == "meta" \in DOMAIN ln /\ ln.meta.ref # 0
+      isExtra == hasRef /\ ln.n = ln.meta.p0 + 1
+      startTwin == isExtra /\ judged /\ ~argOK /\ refused
+      after == hasRef /\ g.twin /\ ln.n > ln.meta.p0 + 1
+      refln == IF after THEN T[Idx[ln.meta.ref][1] + ln.n - 2] ELSE ln
+      sameLater == ~after \/ ( /\ NormFx(ln.fx, g.shift, g.d0) = NormFx(refln.fx, 0, 0)
+                               /\ ln.post.state = refln.post.state /\ ln.post.timers = refln.post.timers
+                               /\ Len(ln.post.pending) = Len(refln.post.pending) /\ ln.t = refln.t )
+      g2 == [timers |-> ln.post.timers, state |-> ln.post.state, pending |-> ln.post.pending, has |-> TRUE,
+             twin |-> IF isExtra THEN startTwin ELSE g.twin,
+             shift |-> IF isExtra THEN Len(Fx(ln, "ret")) ELSE g.shift, d0 |-> IF isExtra THEN Len(c.D) ELSE g.d0]
   IN FirstBad(g2,
        << <<~(judged /\ ~argOK) \/ refused, "C20.invalid_argument_not_refused", <<s.op, out>> >>,
           <<~(judged /\ ~argOK) \/ unchanged, "C20.refusal_not_atomic", <<s.op>> >>,
-          <<~(judged /\ argOK) \/ ~refused, "C20.valid_argument_refused", <<s.op, out>> >> >>,
-       IF judged /\ ~argOK THEN 1 ELSE 0)
+          <<~(judged /\ argOK) \/ ~refused, "C20.valid_argument_refused", <<s.op, out>> >>,
+          <<sameLater, "C20.refused_call_changed_later_behaviour", <<ln.n, s.op, NormFx(ln.fx, g.shift, g.d0), NormFx(refln.fx, 0, 0)>> >> >>,
+       (IF judged /\ ~argOK THEN 1 ELSE 0) + (IF after THEN 1 ELSE 0))
 C20_End(c, g) == OKr(g)
 
 
